@@ -10,6 +10,12 @@ for f in sorted(glob.glob("/root/work/verify_batch*.log")):
         if m:
             res[m.group(1)] = {"apply": m.group(2), "demo_clean_rc": int(m.group(3)), "demo_mut_rc": int(m.group(4)), "baseline": m.group(5),
                                "how": "tools/verify_seed.sh in a scratch worktree of /repo (removed afterwards)"}
+        # preserving refactorings are applied in pairs:  Cxx-p1+p2 apply=[ p1=git p2=git ] baseline=[...]
+        m = re.match(r"(C\d\d)-(p\d)\+(p\d) apply=\[(.*?)\] baseline=\[(.*)\]", line.strip())
+        if m:
+            for k in (m.group(2), m.group(3)):
+                res[f"{m.group(1)}-{k}"] = {"apply": m.group(4).strip(), "baseline": m.group(5), "applied_together_with": [m.group(2), m.group(3)],
+                                            "how": "tools/verify_pres.sh in a scratch worktree of /repo (removed afterwards)"}
 for name, r in sorted(res.items()):
     p = f"{V}/{name}/meta.json"
     if not os.path.exists(p):
@@ -17,6 +23,6 @@ for name, r in sorted(res.items()):
     meta = json.load(open(p))
     meta["verified"] = r
     json.dump(meta, open(p, "w"), indent=1)
-    print(name, r["demo_clean_rc"], r["demo_mut_rc"], r["baseline"][:12])
+    print(name, r.get("demo_clean_rc"), r.get("demo_mut_rc"), r["baseline"][:12])
 missing = [n for n in sorted(os.listdir(V)) if os.path.isdir(f"{V}/{n}") and n not in res]
 print("not verified yet:", missing)
